@@ -28,6 +28,7 @@ class Tr:
         self.fns = fns          # name -> lean name, for self.len() etc.
         self.binds = []         # monadic bindings collected for the current function
         self.n = 0
+        self.nested = 0         # > 0 inside a closure body / match arm: checked arithmetic there is not hoisted
 
     def fresh(self):
         self.n += 1
@@ -100,13 +101,16 @@ class Tr:
         n = pats[0][1]
         env2 = dict(env)
         env2[n] = ("node", ("%s_elem" % n, "%s_next" % n, "%s_len" % n))
+        self.nested += 1
         body = body_tr(closure[2], env2)
+        self.nested -= 1
         return "(match %s with\n    | Link.none => %s\n    | Link.some %s_elem %s_next %s_len => %s)" % (l, none_term, n, n, n, some_wrap % body)
 
     def match(self, e, env, body_tr):
         scrut, arms = e[1], e[2]
         l = self.link(scrut, env)
         out = []
+        self.nested += 1
         for arm in arms:
             pat, guard, body = arm[0], arm[1], arm[2]
             if guard is not None:
@@ -123,7 +127,9 @@ class Tr:
             elif pat[0] == "pwild":
                 out.append("    | _ => %s" % body_tr(body, env))
             else:
+                self.nested -= 1
                 raise LErr("pattern %r" % (pat,))
+        self.nested -= 1
         return "(match %s with\n%s)" % (l, "\n".join(out))
 
     def block(self, e, env, body_tr):
@@ -172,6 +178,8 @@ class Tr:
         if k == "binary":
             op, a, b = e[1], e[2], e[3]
             if op == "+":
+                if self.nested:
+                    raise LErr("checked arithmetic inside a closure or match arm")
                 x, y = self.val(a, env), self.val(b, env)
                 t = self.fresh()
                 self.binds.append((t, "(Rt.addUsize %s %s)" % (x, y)))
@@ -280,6 +288,11 @@ def translate(src, old_text=None):
                     "Node": [("elem", ("tpath", "T", [])), ("next", ("tpath", "Link", [])), ("len", ("tpath", "usize", []))],
                     "Iter": [("next", ("tpath", "Option", [("tref", False, ("tpath", "Node", []))]))]}
     layout_bad = {n for n, f in want_structs.items() if structs.get(n) != f}
+    # the data representation (field types, integer widths) is not a matter of rewriting a body: strict, like the
+    # struct / enum items of engine.rs; the iterator's own field may change with its `next` (that degrades)
+    for n in sorted(layout_bad & {"List", "Node"}):
+        errors_early = "struct %s is not the layout the translation assumes: %r" % (n, structs.get(n))
+        return "", [errors_early], []
     if not re.search(r"type\s+Link<T>\s*=\s*Option<Arc<Node<T>>>\s*;", src):
         layout_bad |= {"List", "Node"}
     fns = [it for it in items if it[0] == "fn"]
@@ -292,6 +305,13 @@ def translate(src, old_text=None):
         _, name, impl_type, self_kind, params, ret, body, _ = it
         key = "%s::%s" % (impl_type, name)
         if impl_type == "List@Drop":
+            continue
+        if impl_type == "Iter@Iterator" and name == "size_hint":
+            continue      # a hint: by the Iterator contract no adaptor's RESULT depends on it (the harness checks it is honest)
+        if impl_type and impl_type.startswith("Iter@") and not (impl_type == "Iter@Iterator" and name == "next"):
+            # std's adaptors (`filter(..).count()` runs on `fold`, `nth`, `size_hint` ...) are defined by `next()` only as
+            # long as no other method of the iterator is overridden; an override is outside this translation: strict
+            errors.append("%s: an iterator method other than next() is overridden; the adaptors the engine uses are no longer determined by next()" % key)
             continue
         tr = Tr(table)
         try:
@@ -357,6 +377,9 @@ def translate(src, old_text=None):
     for ln, key in keymap.items():
         if ln not in seen:
             errors.append("function %s not found or not translated, and no previous text" % key)
+    for what, why in skipped:
+        if what != "drop":
+            errors.append("item %s is outside the parser's subset (%s): its effect on the list or its iterator is unknown" % (what, why))
     out.sort(key=lambda t: order.index(re.search(r"def (\w+)", t).group(1)) if re.search(r"def (\w+)", t).group(1) in order else 99)
     return header + "\n\n".join(out) + "\n\nend Arimaa.Gen.RsList\n", errors, degraded
 
